@@ -61,6 +61,10 @@ func checkC06(c *Ctx) {
 	}
 	checkAuthedFlag(c, gen)
 	checkSchemeKinds(c, gen)
+	// the requirements are evaluated at run time from the embedded spec: that file must be
+	// rewritten by every generation
+	c.Rule("C06.R4.spec-rewritten", "every generated file other than the SkipExists-protected ones is rewritten on every generation (the embedded spec the run-time security evaluation reads is never stale)", 1)
+	checkWriteUnconditional(c, "C06.R4.spec-rewritten", gen)
 }
 
 func checkAuthedFlag(c *Ctx, gen *packages.Package) {
